@@ -19,7 +19,6 @@ import (
 	"go/parser"
 	"go/token"
 	"path/filepath"
-	"sort"
 	"strings"
 )
 
@@ -32,6 +31,16 @@ type stTr struct {
 	inLoop []string          // stack of loop-state tuples (Coq patterns)
 	// inside a loop body the state handed to the next iteration is the tuple that was live at loop entry
 	stateOverride string
+	order         *[]string // locals in the order of their declaration: the layout of a loop state does not depend on their names
+}
+
+func (t *stTr) declare(name string) {
+	for _, n := range *t.order {
+		if n == name {
+			return
+		}
+	}
+	*t.order = append(*t.order, name)
 }
 
 func (t *stTr) pos(n ast.Node) string { return t.fset.Position(n.Pos()).String() }
@@ -197,13 +206,11 @@ func (t *stTr) state() string {
 		return t.stateOverride
 	}
 	var names []string
-	for n := range t.scal {
-		names = append(names, "v_"+n)
+	for _, n := range *t.order {
+		if t.scal[n] || t.ptr[n] {
+			names = append(names, "v_"+n)
+		}
 	}
-	for n := range t.ptr {
-		names = append(names, "v_"+n)
-	}
-	sort.Strings(names)
 	return "(pool, ctr, (" + strings.Join(append(names, "tt"), ", ") + "))"
 }
 
@@ -266,6 +273,7 @@ func (t *stTr) stmts(list []ast.Stmt, rest [][]ast.Stmt, depth int) (string, err
 				if _, isPtr := vs.Type.(*ast.StarExpr); isPtr && len(vs.Values) == 0 {
 					for _, n := range vs.Names {
 						t.ptr[n.Name] = true
+						t.declare(n.Name)
 						lets = append(lets, fmt.Sprintf("let v_%s : option nat := None in", n.Name))
 					}
 					continue
@@ -297,6 +305,7 @@ func (t *stTr) stmts(list []ast.Stmt, rest [][]ast.Stmt, depth int) (string, err
 										return "", err
 									}
 									t.ptr[id.Name] = true
+									t.declare(id.Name)
 									k, err := cont()
 									if err != nil {
 										return "", err
@@ -312,6 +321,7 @@ func (t *stTr) stmts(list []ast.Stmt, rest [][]ast.Stmt, depth int) (string, err
 			if id, ok := x.Lhs[0].(*ast.Ident); ok {
 				if p, okp := t.pointer(x.Rhs[0]); okp && (t.ptr[id.Name] || x.Tok == token.DEFINE) {
 					t.ptr[id.Name] = true
+					t.declare(id.Name)
 					k, err := cont()
 					if err != nil {
 						return "", err
@@ -337,6 +347,7 @@ func (t *stTr) stmts(list []ast.Stmt, rest [][]ast.Stmt, depth int) (string, err
 					return "", fmt.Errorf("%s: assignment to an unknown variable", t.pos(s))
 				}
 				t.scal[id.Name] = true
+				t.declare(id.Name)
 				k, err := cont()
 				if err != nil {
 					return "", err
@@ -454,6 +465,7 @@ func (t *stTr) loop(elemVar, idxVar, indices string, body, tail []ast.Stmt, rest
 	sS, sP := copySet(t.scal), copySet(t.ptr)
 	if idxVar != "" {
 		t.scal[idxVar] = true
+		t.declare(idxVar)
 	}
 	t.inLoop = append(t.inLoop, st)
 	// locals declared inside the body do not survive an iteration: the state tuple is the one live at loop entry
@@ -523,7 +535,7 @@ func genStrategies(repo string) (string, error) {
 		if fd == nil {
 			return "", fmt.Errorf("%s: (*%s).NextBackend not found", tg.file, tg.typ)
 		}
-		t := &stTr{fset: fset, recv: fd.Recv.List[0].Names[0].Name, scal: map[string]bool{}, ptr: map[string]bool{}, elem: map[string]string{}}
+		t := &stTr{fset: fset, recv: fd.Recv.List[0].Names[0].Name, scal: map[string]bool{}, ptr: map[string]bool{}, elem: map[string]string{}, order: &[]string{}}
 		body, err := t.stmts(fd.Body.List, nil, 1)
 		if err != nil {
 			return "", fmt.Errorf("%s: %v", tg.typ, err)
